@@ -1,11 +1,236 @@
-//! C14 (not built yet)
-use crate::report::{Disagreement, Run};
-use serde_json::Value;
+//! C14 Inserting then deleting the same rows or columns is the identity.
+//!
+//! Workbooks of `structural::specs` without the observers of the very last rows/columns (so that no insertion pushes a
+//! reference off the grid); for every position and count: insert(k at p) then delete(k at p), through both APIs.
+//! Oracle: the complete observation (`obs::observe_model`: contents, kinds, values, formulas, styles, links,
+//! row/column sizes, hidden flags and styles, defined names) before and after must be equal.
 
-pub fn run(run: &mut Run) {
-    run.machinery_errors.push("C14: check not built yet".into());
+use crate::obs::{self, ObsOpts};
+use crate::report::{Disagreement, Run};
+use crate::structural::{self as st, Api, Axis, Built, Eng, SOp, Spec};
+use serde_json::{json, Value};
+use std::collections::BTreeSet;
+
+pub fn ops(thorough: bool, axis: Axis) -> Vec<(i32, i32)> {
+    let mut v = vec![];
+    let kmax = if thorough { 3 } else { 2 };
+    for p in 1..=7 {
+        for k in 1..=kmax {
+            v.push((p, k));
+        }
+    }
+    v.push((axis.last() - 6, kmax));
+    v.push((axis.last() - 10, 1));
+    v
 }
 
-pub fn replay(_case: &Value) -> Vec<Disagreement> {
-    vec![]
+fn opts() -> ObsOpts {
+    ObsOpts {
+        rows: 16,
+        cols: 16,
+        view: false,
+        values: true,
+    }
+}
+
+/// what lives at a cell path of the observation (for the signature)
+fn owner(b: &Built, path: &str) -> String {
+    // "s0.R3C2.value"
+    let mut it = path.split('.');
+    let s = it.next().unwrap_or("");
+    let rc = it.next().unwrap_or("");
+    if !rc.starts_with('R') {
+        return obs::field_class(path);
+    }
+    let sheet: u32 = s.trim_start_matches('s').parse().unwrap_or(9);
+    let (r, c) = match rc[1..].split_once('C') {
+        Some((r, c)) => (r.parse::<i32>().unwrap_or(0), c.parse::<i32>().unwrap_or(0)),
+        None => return "cell".into(),
+    };
+    let axis = b.spec.axis;
+    if sheet == 0 {
+        for d in &b.data {
+            if axis.rc(d.t, d.lane) == (r, c) {
+                return format!("data:{}", d.what);
+            }
+        }
+    }
+    for o in &b.observers {
+        if o.sheet == sheet && o.row == r && o.col == c {
+            return format!("observer:{}", o.form);
+        }
+    }
+    "blank-cell".into()
+}
+
+pub fn run_case(b: &Built, before: &obs::Obs, api: Api, p: i32, k: i32) -> (Option<Vec<Disagreement>>, u128) {
+    let axis = b.spec.axis;
+    let case = json!({"prop": "C14", "spec": b.spec, "api": api, "p": p, "k": k});
+    let mut eng = Eng::load(&b.bytes, api);
+    let r = crate::env::guarded(|| -> Result<(), String> {
+        eng.apply(0, axis, &SOp::Insert { p, k })?;
+        Ok(())
+    });
+    match r {
+        Err(pn) => {
+            return (
+                Some(vec![Disagreement {
+                    sig: format!("panic insert {} at={}", axis.name(), pn.split(" @ ").last().unwrap_or("")),
+                    case,
+                    detail: pn,
+                }]),
+                0,
+            )
+        }
+        Ok(Err(_)) => return (None, 0),
+        Ok(Ok(())) => {}
+    }
+    let mid = obs::digest(&obs::observe_model(eng.model(), &opts()));
+    let r = crate::env::guarded(|| eng.apply(0, axis, &SOp::Delete { p, k }));
+    match r {
+        Err(pn) => {
+            return (
+                Some(vec![Disagreement {
+                    sig: format!("panic delete-after-insert {} at={}", axis.name(), pn.split(" @ ").last().unwrap_or("")),
+                    case,
+                    detail: pn,
+                }]),
+                mid,
+            )
+        }
+        Ok(Err(e)) => {
+            return (
+                Some(vec![Disagreement {
+                    sig: format!("delete-after-insert-refused {}", axis.name()),
+                    case,
+                    detail: format!("insert({} at {}) was accepted, deleting the same {} {} is refused: {}", k, p, k, axis.name(), e),
+                }]),
+                mid,
+            )
+        }
+        Ok(Ok(())) => {}
+    }
+    let after = obs::observe_model(eng.model(), &opts());
+    if &after == before {
+        return (Some(vec![]), mid);
+    }
+    let df = obs::diff(before, &after);
+    let classes: BTreeSet<String> = df.iter().map(|(k, _, _)| obs::field_class(k)).collect();
+    let owners: BTreeSet<String> = df.iter().map(|(k, _, _)| owner(b, k)).collect();
+    let mut shape = BTreeSet::new();
+    for (_, a, c) in &df {
+        if c == "<absent>" {
+            shape.insert("lost");
+        }
+        if a == "<absent>" {
+            shape.insert("extra");
+        }
+        if c.contains("#REF!") && !a.contains("#REF!") {
+            shape.insert("gains-#REF!");
+        }
+    }
+    (
+        Some(vec![Disagreement {
+            sig: format!(
+                "roundtrip {} fields={} owners={} shape={}",
+                axis.name(),
+                classes.into_iter().collect::<Vec<_>>().join(","),
+                owners.into_iter().collect::<Vec<_>>().join(","),
+                shape.into_iter().collect::<Vec<_>>().join("+")
+            ),
+            case,
+            detail: format!(
+                "insert({} at {}) then delete({} at {}) along {} changed the workbook:\n{}",
+                k,
+                p,
+                k,
+                p,
+                axis.name(),
+                obs::diff_text(&df, 8)
+            ),
+        }]),
+        mid,
+    )
+}
+
+pub fn run(run: &mut Run) {
+    let thorough = run.tier.thorough();
+    let specs = st::specs(thorough, false);
+    let res = crate::env::par_units(specs.len(), |u| {
+        let spec = &specs[u];
+        let b = st::build(spec);
+        let before = {
+            let m = ironcalc_base::Model::from_bytes(&b.bytes, "en").expect("from_bytes");
+            obs::observe_model(&m, &opts())
+        };
+        let mut ds = vec![];
+        let (mut cases, mut ok) = (0u64, 0u64);
+        let mut mids = BTreeSet::new();
+        for api in [Api::Model, Api::User] {
+            for (p, k) in ops(thorough, spec.axis) {
+                cases += 1;
+                let (r, mid) = run_case(&b, &before, api, p, k);
+                if let Some(d) = r {
+                    ok += 1;
+                    mids.insert(mid);
+                    ds.extend(d);
+                }
+            }
+        }
+        (ds, cases, ok, mids, before.len())
+    });
+    let mut outcomes = BTreeSet::new();
+    let mut fields = 0u64;
+    for r in res {
+        match r {
+            Ok((ds, cases, ok, mids, n)) => {
+                run.evaluations += cases;
+                run.traces += ok;
+                run.transitions += 2 * ok;
+                run.states += 2 * ok + 1;
+                run.nontrivial += ok;
+                fields += n as u64 * ok;
+                outcomes.extend(mids);
+                run.add_all(ds);
+            }
+            Err(e) => run.machinery_errors.push(e),
+        }
+    }
+    run.distinct_outcomes = outcomes.len() as u64;
+    run.extra.insert("observation_fields_compared".into(), json!(fields));
+    let o0 = ops(thorough, specs[0].axis);
+    run.sample(json!({"prop": "C14", "spec": specs[0], "api": "Model", "p": o0[0].0, "k": o0[0].1}));
+    run.sample(json!({"prop": "C14", "spec": specs[specs.len() / 2], "api": "User", "p": o0[5].0, "k": o0[5].1}));
+    run.sample(json!({"prop": "C14", "spec": specs[specs.len() - 1], "api": "User", "p": 7, "k": 1}));
+    run.bound = json!({
+        "workbooks": specs.len(),
+        "orientations": ["rows", "columns"],
+        "variants": 3,
+        "interesting_contents": st::CONTENTS,
+        "interesting_cells_per_workbook": if thorough { "1 (all variants) and 2 (variant 0, unordered content pairs at every position pair)" } else { "1" },
+        "positions": "1..=7, last-6, last-10",
+        "counts": if thorough { "1..=3" } else { "1..=2" },
+        "apis": ["Model", "UserModel"],
+        "hash_seed": crate::env::hash_seed(),
+    });
+    run.rule = "every accepted insertion followed by the deletion of the same band; non-trivial: the insertion itself changed the observation (distinct_outcomes counts the distinct intermediate states)".into();
+    run.assume("no reference of these workbooks is pushed off the grid by the insertions (the nearest is 6 positions from the end, counts <= 3)");
+    run.assume("observation = obs::observe_model over rows/columns 1..16 plus everything stored, both sheets, defined names included; Some(default) row/column style is observed as None (descriptor artefact, see DESIGN 2.3)");
+    run.assume("hash-map iteration order fixed by VERIF_HASH_SEED for this run (listed seed only)");
+}
+
+pub fn replay(case: &Value) -> Vec<Disagreement> {
+    let spec: Spec = match serde_json::from_value(case["spec"].clone()) {
+        Ok(s) => s,
+        Err(_) => return vec![],
+    };
+    let api: Api = serde_json::from_value(case["api"].clone()).unwrap_or(Api::Model);
+    let p = case["p"].as_i64().unwrap_or(1) as i32;
+    let k = case["k"].as_i64().unwrap_or(1) as i32;
+    let b = st::build(&spec);
+    let before = {
+        let m = ironcalc_base::Model::from_bytes(&b.bytes, "en").expect("from_bytes");
+        obs::observe_model(&m, &opts())
+    };
+    run_case(&b, &before, api, p, k).0.unwrap_or_default()
 }
